@@ -8,7 +8,9 @@ import (
 	"os"
 	"path/filepath"
 	"reflect"
+	"runtime"
 	"sort"
+	"strconv"
 	"strings"
 	"testing"
 	"testing/synctest"
@@ -261,6 +263,11 @@ func Worker(t *testing.T, id, tier string, seed uint64, shard, nshards int, budg
 	scheds := map[string]bool{}
 	seenKeys := map[string]bool{}
 	res.Complete = true
+	runLimit := 40 * time.Second
+	if v, err := strconv.Atoi(os.Getenv("VERIF_RUN_TIMEOUT_S")); err == nil && v > 0 {
+		runLimit = time.Duration(v) * time.Second
+	}
+	progress := os.Getenv("VERIF_PROGRESS")
 	var dump *os.File
 	if path := os.Getenv("VERIF_DUMP_HASHES"); path != "" {
 		dump, _ = os.Create(path)
@@ -273,7 +280,15 @@ func Worker(t *testing.T, id, tier string, seed uint64, shard, nshards int, budg
 			continue
 		}
 		plan := p.Plan(tier, seed, i)
+		if progress != "" {
+			// lets the driver turn a process crash (fatal error or panic in a
+			// library goroutine) into a replay file for exactly this plan
+			pb, _ := json.Marshal(plan)
+			_ = os.WriteFile(progress, pb, 0o644)
+		}
+		stopWatch := runWatchdog(runLimit)
 		o := RunPlan(t, p, plan)
+		stopWatch()
 		res.Runs++
 		res.Classes[o.Class]++
 		if dump != nil {
@@ -375,6 +390,28 @@ func Replay(t *testing.T, path string) bool {
 	o := RunPlan(t, p, plan)
 	return hasKey(o, rf.Violation.Key) && o.LogHash == rf.LogHash
 }
+
+// runWatchdog aborts the worker process with a goroutine dump when one run
+// exceeds its real-time limit (the simulation itself never waits in real time).
+func runWatchdog(limit time.Duration) (stop func()) {
+	done := make(chan struct{})
+	go func() {
+		select {
+		case <-done:
+		case <-realAfter(limit):
+			fmt.Fprintln(os.Stderr, "RUN-TIMEOUT: run exceeded", limit)
+			buf := make([]byte, 1<<20)
+			n := runtime.Stack(buf, true)
+			os.Stderr.Write(buf[:n])
+			os.Exit(3)
+		}
+	}()
+	return func() { close(done) }
+}
+
+// realAfter is time.After on the real clock; it must be called outside a
+// synctest bubble (the worker loop is).
+func realAfter(d time.Duration) <-chan time.Time { return time.After(d) }
 
 // noPrepare is embedded by properties without a preparation step.
 type noPrepare struct{}
